@@ -48,70 +48,165 @@ def fn_body(src, name):
                 return src[i:j + 1]
         j += 1
 
-def extract(repo):
-    c = {}
-    resp = strip_comments(read(repo, "src/parsing/response.rs"))
-    m = need(re.search(r"const\s+MAX_LINE_LEN\s*:\s*u64\s*=\s*([^;]+);", resp), "MAX_LINE_LEN")
-    c["maxLineLen"] = eval_int(m.group(1))
-    head = fn_body(resp, "parse_response_head")
-    # both the status line and the header lines must be read under MAX_LINE_LEN
-    need(re.search(r"read_line\(\s*reader\s*,\s*&mut\s+line\s*,\s*MAX_LINE_LEN\s*\)", head), "status line limit")
-    need(re.search(r"read_line_strict\(\s*reader\s*,\s*&mut\s+line\s*,\s*MAX_LINE_LEN\s*\)", head), "header line limit")
+def file_consts(src):
+    """every `const NAME: TYPE = EXPR;` of a file (also those local to a function): NAME -> (TYPE, EXPR)"""
+    return {m.group(1): (m.group(2).strip(), m.group(3).strip())
+            for m in re.finditer(r"\bconst\s+([A-Z_][A-Z0-9_]*)\s*:\s*([^=;]+?)\s*=\s*([^;]+);", src)}
 
-    chunked = strip_comments(read(repo, "src/parsing/chunked_reader.rs"))
-    m = need(re.search(r"const\s+MAX_BUFFER_LEN\s*:\s*usize\s*=\s*([^;]+);", chunked), "MAX_BUFFER_LEN")
-    c["maxBufferLen"] = eval_int(m.group(1))
-    rcs = fn_body(chunked, "read_chunk_size")
-    m = need(re.search(r"read_line\(\s*&mut\s+self\.inner\s*,\s*&mut\s+self\.buffer\s*,\s*([^)]+)\)", rcs), "chunk size line limit")
-    c["chunkSizeLineLimit"] = eval_int(m.group(1))
-
-    streams = strip_comments(read(repo, "src/streams.rs"))
-    tun = fn_body(streams, "initiate_tunnel")
-    m = need(re.search(r"\.take\(\s*([^)]+)\)\s*\.read_to_end", tun), "CONNECT body cap")
-    c["connectBodyCap"] = eval_int(m.group(1))
-    happy = strip_comments(read(repo, "src/happy.rs"))
-    m = need(re.search(r"const\s+RACE_DELAY\s*:\s*Duration\s*=\s*Duration::from_millis\(\s*([^)]+)\)\s*;", happy), "RACE_DELAY")
-    c["raceDelayMs"] = eval_int(m.group(1))
-    # --- capacity of the BufReader in front of the connection (a parameter of the model)
-    pr = fn_body(resp, "parse_response")
-    m = re.search(r"BufReader::with_capacity\(\s*([^,]+),", pr)
+def resolve(expr, consts, depth=0):
+    """integer value of an expression that is a literal expression, a constant of the same file, or a
+    Duration constructor (milliseconds)"""
+    e = expr.strip()
+    m = re.fullmatch(r"(?:[A-Za-z_][A-Za-z0-9_]*::)*([A-Z_][A-Z0-9_]*)", e)
+    if m and m.group(1) in consts and depth < 4:
+        return resolve(consts[m.group(1)][1], consts, depth + 1)
+    m = re.fullmatch(r"(?:[A-Za-z_:]*::)?Duration::from_millis\(\s*(.+?)\s*\)", e)
     if m:
-        c["bufReaderCap"] = eval_int(m.group(1))
-    else:
-        need(re.search(r"BufReader::new\(", pr), "BufReader in parse_response")
-        c["bufReaderCap"] = 8192      # std's DEFAULT_BUF_SIZE
-    cargo = read(repo, "Cargo.toml")
-    m = need(re.search(r'^version\s*=\s*"([^"]+)"', cargo, flags=re.M), "package version")
-    c["pkgVersion"] = m.group(1)
-    # --- decision tables and defaults -------------------------------------------------------------
-    reqmod = strip_comments(read(repo, "src/request/mod.rs"))
-    send = fn_body(reqmod, "send")
-    m = need(re.search(r"let\s+is_redirect\s*=\s*matches!\(\s*resp\.status\(\)\s*,(.*?)\)\s*;", send, flags=re.S), "is_redirect matches!")
-    names = re.findall(r"StatusCode::([A-Z_]+)", m.group(1))
-    table = {"MOVED_PERMANENTLY": 301, "FOUND": 302, "SEE_OTHER": 303, "NOT_MODIFIED": 304, "USE_PROXY": 305,
-             "TEMPORARY_REDIRECT": 307, "PERMANENT_REDIRECT": 308, "MULTIPLE_CHOICES": 300}
-    if not names or any(n not in table for n in names):
-        raise Missing("redirect status names %r" % names)
-    c["redirectStatuses"] = [table[n] for n in names]
+        return resolve(m.group(1), consts, depth + 1)
+    m = re.fullmatch(r"(?:[A-Za-z_:]*::)?Duration::from_secs\(\s*(.+?)\s*\)", e)
+    if m:
+        return 1000 * resolve(m.group(1), consts, depth + 1)
+    return eval_int(e)
 
-    settings = strip_comments(read(repo, "src/request/settings.rs"))
-    dflt = fn_body(settings, "default")
-    def field(name, pat):
-        mm = need(re.search(r"\b%s\s*:\s*%s" % (name, pat), dflt), "default " + name)
-        return mm.group(1)
-    c["defaultMaxHeaders"] = eval_int(field("max_headers", r"([0-9_]+)\s*,"))
-    c["defaultMaxRedirections"] = eval_int(field("max_redirections", r"([0-9_]+)\s*,"))
-    c["defaultFollowRedirects"] = field("follow_redirects", r"(true|false)") == "true"
-    c["defaultConnectTimeoutMs"] = 1000 * eval_int(field("connect_timeout", r"Duration::from_secs\(\s*([0-9_]+)\s*\)"))
-    c["defaultReadTimeoutMs"] = 1000 * eval_int(field("read_timeout", r"Duration::from_secs\(\s*([0-9_]+)\s*\)"))
-    c["defaultTimeoutNone"] = field("timeout", r"(None|Some)") == "None"
-    c["defaultAcceptInvalidCerts"] = field("accept_invalid_certs", r"(true|false)") == "true"
-    c["defaultAcceptInvalidHostnames"] = field("accept_invalid_hostnames", r"(true|false)") == "true"
-    c["defaultAllowCompression"] = field("allow_compression", r"(true|false)") == "true"
+def same(vals, what):
+    vals = list(vals)
+    if not vals or any(v != vals[0] for v in vals):
+        raise Missing("%s: %r" % (what, vals))
+    return vals[0]
 
-    mp = strip_comments(read(repo, "src/multipart_crate/mod.rs"))
-    m = need(re.search(r"const\s+BOUNDARY_LEN\s*:\s*usize\s*=\s*([^;]+);", mp), "BOUNDARY_LEN")
-    c["boundaryLen"] = eval_int(m.group(1))
+def extract_all(repo):
+    """Every constant is located by the place where the code USES it (a call shape), not by its
+    name, and independently of the others: a renamed constant or helper function does not lose the
+    tie, and a lost anchor only affects the properties that need that constant.
+    returns (constants, {name: reason} for those that could not be regenerated)"""
+    c, missing = {}, {}
+    def attempt(keys, fn):
+        try:
+            r = fn()
+            for k in keys:
+                c[k] = r[k]
+        except (Missing, ValueError, OSError, IndexError) as e:
+            for k in keys:
+                missing[k] = str(e)
+
+    def src(rel):
+        return strip_comments(read(repo, rel))
+
+    def max_line_len():
+        resp = src("src/parsing/response.rs")
+        k = file_consts(resp)
+        # the status line (read_line) and the header lines (read_line_strict) must be read under one limit
+        a = [resolve(m.group(1), k) for m in re.finditer(r"\bread_line\(\s*[^,()]+,\s*[^,()]+,\s*([^()]+?)\s*\)", resp)]
+        b = [resolve(m.group(1), k) for m in re.finditer(r"\bread_line_strict\(\s*[^,()]+,\s*[^,()]+,\s*([^()]+?)\s*\)", resp)]
+        if not a or not b:
+            raise Missing("status line / header line limit (read_line, read_line_strict in response.rs)")
+        return {"maxLineLen": same(a + b, "head line limits differ")}
+    attempt(["maxLineLen"], max_line_len)
+
+    def chunk_consts():
+        ch = src("src/parsing/chunked_reader.rs")
+        k = file_consts(ch)
+        lim = [resolve(m.group(1), k) for m in re.finditer(r"\bread_line\(\s*[^,()]+,\s*[^,()]+,\s*([^()]+?)\s*\)", ch)]
+        return {"chunkSizeLineLimit": same(lim, "chunk size line limit")}
+    attempt(["chunkSizeLineLimit"], chunk_consts)
+
+    def max_buffer_len():
+        ch = src("src/parsing/chunked_reader.rs")
+        k = file_consts(ch)
+        uses = [m.group(1) for m in re.finditer(r"\bmin\(\s*self\.remaining\s*,\s*([^()]+?)\s*\)", ch)]
+        uses += [m.group(1) for m in re.finditer(r"self\.remaining\.min\(\s*([^()]+?)\s*\)", ch)]
+        uses += [m.group(1) for m in re.finditer(r"\bmin\(\s*([^(),]+?)\s*,\s*self\.remaining\s*\)", ch)]
+        if uses:
+            return {"maxBufferLen": same([resolve(u, k) for u in uses], "piece buffer bound")}
+        us = [n for n, (t, _) in k.items() if t == "usize"]
+        if len(us) == 1:
+            return {"maxBufferLen": resolve(us[0], k)}
+        raise Missing("piece buffer bound (min(self.remaining, …) in chunked_reader.rs)")
+    attempt(["maxBufferLen"], max_buffer_len)
+
+    def connect_cap():
+        st = src("src/streams.rs")
+        k = file_consts(st)
+        caps = [resolve(m.group(1), k) for m in re.finditer(r"\.take\(\s*([^()]+?)\s*\)\s*\.read_to_end", st)]
+        return {"connectBodyCap": same(caps, "CONNECT refusal body cap (.take(…).read_to_end in streams.rs)")}
+    attempt(["connectBodyCap"], connect_cap)
+
+    def race_delay():
+        hp = src("src/happy.rs")
+        k = file_consts(hp)
+        ds = [resolve(m.group(1), k) for m in re.finditer(r"\.recv_timeout\(\s*([^()]+(?:\([^()]*\))?)\s*\)", hp)]
+        return {"raceDelayMs": same(ds, "race delay (recv_timeout(…) in happy.rs)")}
+    attempt(["raceDelayMs"], race_delay)
+
+    def bufreader_cap():
+        resp = src("src/parsing/response.rs")
+        k = file_consts(resp)
+        caps = [resolve(m.group(1), k) for m in re.finditer(r"BufReader::with_capacity\(\s*([^,]+),", resp)]
+        news = re.findall(r"BufReader::new\(", resp)
+        if caps and not news:
+            return {"bufReaderCap": same(caps, "BufReader capacity")}
+        if news and not caps:
+            return {"bufReaderCap": 8192}      # std's DEFAULT_BUF_SIZE
+        raise Missing("BufReader in front of the connection (response.rs)")
+    attempt(["bufReaderCap"], bufreader_cap)
+
+    def pkg_version():
+        cargo = read(repo, "Cargo.toml")
+        m = need(re.search(r'^version\s*=\s*"([^"]+)"', cargo, flags=re.M), "package version")
+        return {"pkgVersion": m.group(1)}
+    attempt(["pkgVersion"], pkg_version)
+
+    def redirect_table():
+        reqmod = src("src/request/mod.rs")
+        table = {"MOVED_PERMANENTLY": 301, "FOUND": 302, "SEE_OTHER": 303, "NOT_MODIFIED": 304, "USE_PROXY": 305,
+                 "TEMPORARY_REDIRECT": 307, "PERMANENT_REDIRECT": 308, "MULTIPLE_CHOICES": 300}
+        found = []
+        for m in re.finditer(r"matches!\(\s*([^,]+),((?:\s*\|?\s*(?:[A-Za-z_]+::)*StatusCode::[A-Z_]+)+)\s*\)", reqmod):
+            names = re.findall(r"StatusCode::([A-Z_]+)", m.group(2))
+            if names and all(n in table for n in names):
+                found.append([table[n] for n in names])
+        if len(found) != 1:
+            raise Missing("the matches!(…, StatusCode::… | …) that decides what is a redirect (found %d)" % len(found))
+        return {"redirectStatuses": found[0]}
+    attempt(["redirectStatuses"], redirect_table)
+
+    defaults = ["defaultMaxHeaders", "defaultMaxRedirections", "defaultFollowRedirects", "defaultConnectTimeoutMs",
+                "defaultReadTimeoutMs", "defaultTimeoutNone", "defaultAcceptInvalidCerts",
+                "defaultAcceptInvalidHostnames", "defaultAllowCompression"]
+    def settings_defaults():
+        settings = src("src/request/settings.rs")
+        k = file_consts(settings)
+        dflt = fn_body(settings, "default")
+        def field(name, pat):
+            mm = need(re.search(r"\b%s\s*:\s*%s" % (name, pat), dflt), "default " + name)
+            return mm.group(1)
+        d = {}
+        d["defaultMaxHeaders"] = resolve(field("max_headers", r"([A-Za-z0-9_:]+)\s*,"), k)
+        d["defaultMaxRedirections"] = resolve(field("max_redirections", r"([A-Za-z0-9_:]+)\s*,"), k)
+        d["defaultFollowRedirects"] = field("follow_redirects", r"(true|false)") == "true"
+        d["defaultConnectTimeoutMs"] = resolve(field("connect_timeout", r"((?:[A-Za-z_]+::)*Duration::from_(?:secs|millis)\(\s*[A-Za-z0-9_]+\s*\)|[A-Z_][A-Z0-9_]*)"), k)
+        d["defaultReadTimeoutMs"] = resolve(field("read_timeout", r"((?:[A-Za-z_]+::)*Duration::from_(?:secs|millis)\(\s*[A-Za-z0-9_]+\s*\)|[A-Z_][A-Z0-9_]*)"), k)
+        d["defaultTimeoutNone"] = field("timeout", r"(None|Some)") == "None"
+        d["defaultAcceptInvalidCerts"] = field("accept_invalid_certs", r"(true|false)") == "true"
+        d["defaultAcceptInvalidHostnames"] = field("accept_invalid_hostnames", r"(true|false)") == "true"
+        d["defaultAllowCompression"] = field("allow_compression", r"(true|false)") == "true"
+        return d
+    attempt(defaults, settings_defaults)
+
+    def boundary_len():
+        mp = src("src/multipart_crate/mod.rs")
+        k = file_consts(mp)
+        uses = [resolve(m.group(1), k) for m in re.finditer(r"\.take\(\s*([A-Z_][A-Z0-9_]*|[0-9_]+)\s*\)", mp)]
+        if uses:
+            return {"boundaryLen": same(uses, "boundary length (.take(…) of the random characters)")}
+        return {"boundaryLen": resolve("BOUNDARY_LEN", k) if "BOUNDARY_LEN" in k else (_ for _ in ()).throw(Missing("BOUNDARY_LEN"))}
+    attempt(["boundaryLen"], boundary_len)
+    return c, missing
+
+def extract(repo):
+    c, missing = extract_all(repo)
+    if missing:
+        raise Missing("; ".join("%s (%s)" % kv for kv in sorted(missing.items())))
     return c
 
 LEAN_NAMES = ["maxLineLen", "chunkSizeLineLimit", "maxBufferLen", "connectBodyCap", "raceDelayMs"]
@@ -144,14 +239,32 @@ def main():
             out = args.pop(0)
         elif a == "--json":
             jout = args.pop(0)
-    try:
-        c = extract(repo)
-    except Missing as e:
-        print("extract_consts: anchor not found: %s" % e, file=sys.stderr)
+    c, missing = extract_all(repo)
+    prev = {}
+    prev_path = os.path.join(here, "lean", "Atto", "Gen", "consts.last.json")
+    if os.path.exists(prev_path):
+        try:
+            prev = json.load(open(prev_path))
+        except Exception:
+            prev = {}
+    for k, why in sorted(missing.items()):
+        print("extract_consts: anchor not found: %s: %s" % (k, why), file=sys.stderr)
+    full = dict(c)
+    for k in missing:
+        # the Lean file needs a value for every name: keep the last regenerated one; the properties
+        # that need this constant are reported as a broken tie by ./check (see "_missing")
+        if k in prev:
+            full[k] = prev[k]
+    if any(k not in full for k in LEAN_NAMES + ["redirectStatuses", "defaultMaxHeaders", "defaultMaxRedirections",
+            "defaultConnectTimeoutMs", "defaultReadTimeoutMs", "boundaryLen", "defaultFollowRedirects", "defaultTimeoutNone",
+            "defaultAcceptInvalidCerts", "defaultAcceptInvalidHostnames", "defaultAllowCompression"]):
+        print("extract_consts: no previous value to fall back on", file=sys.stderr)
         sys.exit(2)
-    except (ValueError, OSError) as e:
-        print("extract_consts: %s" % e, file=sys.stderr)
-        sys.exit(2)
+    if not missing:
+        with open(prev_path, "w") as f:
+            json.dump(c, f, sort_keys=True)
+    c = full
+    c["_missing"] = missing
     text = render(c)
     old = None
     if os.path.exists(out):
